@@ -408,6 +408,19 @@ package bufconfig
 //@   assert before "externalBufYAMLFile.Modules = []externalBufYAMLFileModuleV2{}" collapse-lint-hoisted: e_lintV2Empty(externalBufYAMLFile.Modules[0].Lint)
 //@   assert before "externalBufYAMLFile.Modules = []externalBufYAMLFileModuleV2{}" collapse-breaking-hoisted: e_breakingEmpty(externalBufYAMLFile.Modules[0].Breaking)
 //@   assert before "externalBufYAMLFile.Modules = []externalBufYAMLFileModuleV2{}" collapse-no-includes: len(externalBufYAMLFile.Modules[0].Includes) == 0
+// (ca-Z) module part of the writer: version, name, deps, and for v2 every include / exclude re-based onto the module directory
+//@   requires table-has-names: z_versionNames(fileVersionToString)
+//@   closure 0 ensures r == moduleRef.String()
+//@   closure 1 ensures r == moduleRef.String()
+//@   assert before "rootToExcludes := moduleConfig.RootToExcludes()"@1 v1-version-name-deps: externalBufYAMLFile.Version == fileVersion.String() && (fileVersion == FileVersionV1 ==> externalBufYAMLFile.Version == "v1") && (fileVersion == FileVersionV1Beta1 ==> externalBufYAMLFile.Version == "v1beta1") && (moduleConfig.FullName() == nil ==> externalBufYAMLFile.Name == "") && (moduleConfig.FullName() != nil ==> externalBufYAMLFile.Name == moduleConfig.FullName().String()) && len(externalBufYAMLFile.Deps) == len(bufYAMLFile.ConfiguredDepModuleRefs()) && (forall i int :: 0 <= i && i < len(externalBufYAMLFile.Deps) ==> externalBufYAMLFile.Deps[i] == bufYAMLFile.ConfiguredDepModuleRefs()[i].String())
+//@   assert before "stringToExternalLint := make(" v2-version-deps: externalBufYAMLFile.Version == "v2" && len(externalBufYAMLFile.Deps) == len(bufYAMLFile.ConfiguredDepModuleRefs()) && (forall i int :: 0 <= i && i < len(externalBufYAMLFile.Deps) ==> externalBufYAMLFile.Deps[i] == bufYAMLFile.ConfiguredDepModuleRefs()[i].String())
+//@   loop 3 invariant module-names: forall j int :: 0 <= j && j < $i ==> (bufYAMLFile.ModuleConfigs()[j].FullName() == nil ==> externalBufYAMLFile.Modules[j].Name == "") && (bufYAMLFile.ModuleConfigs()[j].FullName() != nil ==> externalBufYAMLFile.Modules[j].Name == bufYAMLFile.ModuleConfigs()[j].FullName().String())
+//@   loop 3 invariant module-includes: forall j int, q int :: 0 <= j && j < $i && 0 <= q && q < len(externalBufYAMLFile.Modules[j].Includes) ==> externalBufYAMLFile.Modules[j].Includes[q] == normalpath.Join(bufYAMLFile.ModuleConfigs()[j].DirPath(), bufYAMLFile.ModuleConfigs()[j].RootToIncludes()["."][q])
+//@   loop 3 invariant module-excludes: forall j int :: 0 <= j && j < $i ==> len(externalBufYAMLFile.Modules[j].Excludes) == len(bufYAMLFile.ModuleConfigs()[j].RootToExcludes()["."]) && (forall q int :: 0 <= q && q < len(externalBufYAMLFile.Modules[j].Excludes) ==> externalBufYAMLFile.Modules[j].Excludes[q] == normalpath.Join(bufYAMLFile.ModuleConfigs()[j].DirPath(), bufYAMLFile.ModuleConfigs()[j].RootToExcludes()["."][q]))
+//@   loop 4 invariant module-names: forall j int :: 0 <= j && j < len(externalBufYAMLFile.Modules) ==> (bufYAMLFile.ModuleConfigs()[j].FullName() == nil ==> externalBufYAMLFile.Modules[j].Name == "") && (bufYAMLFile.ModuleConfigs()[j].FullName() != nil ==> externalBufYAMLFile.Modules[j].Name == bufYAMLFile.ModuleConfigs()[j].FullName().String())
+//@   loop 4 invariant module-includes: forall j int, q int :: 0 <= j && j < len(externalBufYAMLFile.Modules) && 0 <= q && q < len(externalBufYAMLFile.Modules[j].Includes) ==> externalBufYAMLFile.Modules[j].Includes[q] == normalpath.Join(bufYAMLFile.ModuleConfigs()[j].DirPath(), bufYAMLFile.ModuleConfigs()[j].RootToIncludes()["."][q])
+//@   loop 4 invariant module-excludes: forall j int :: 0 <= j && j < len(externalBufYAMLFile.Modules) ==> len(externalBufYAMLFile.Modules[j].Excludes) == len(bufYAMLFile.ModuleConfigs()[j].RootToExcludes()["."]) && (forall q int :: 0 <= q && q < len(externalBufYAMLFile.Modules[j].Excludes) ==> externalBufYAMLFile.Modules[j].Excludes[q] == normalpath.Join(bufYAMLFile.ModuleConfigs()[j].DirPath(), bufYAMLFile.ModuleConfigs()[j].RootToExcludes()["."][q]))
+//@   assert before "externalBufYAMLFile.Modules = []externalBufYAMLFileModuleV2{}" collapse-name-hoisted: (bufYAMLFile.ModuleConfigs()[0].FullName() == nil ==> externalBufYAMLFile.Name == "") && (bufYAMLFile.ModuleConfigs()[0].FullName() != nil ==> externalBufYAMLFile.Name == bufYAMLFile.ModuleConfigs()[0].FullName().String())
 //@   canary ensures err != nil
 //
 // Exported constructors (used by bufmigrate): arguments are stored unchanged.
